@@ -1,15 +1,15 @@
 import OVM.Kernel.Frames
 /-
-  Frame lemmas for the stages of `delete_*_core` and for `collect_garbage`: modes and
-  incidence flags never change; counters change only where a stage says so.
-  (generated list of statements; each proof is by unfolding the stage)
+  Frame lemmas for the stages of `delete_*_core` and for `collect_garbage`: which fields each
+  stage leaves alone / how it changes the others.  (statement list generated; every proof is by
+  unfolding the stage)
 -/
 namespace OVM
 namespace Kernel
 
 macro "frame_tac" : tactic => `(tactic| ((try simp only []) <;> (try (repeat' split)) <;> (first | rfl | simp | simp_all)))
 
-/-- a fold of a flag-preserving step preserves the flag -/
+/-- a fold of a field-preserving step preserves the field -/
 theorem foldl_frame {α β} (proj : Kernel → α) (step : Kernel → β → Kernel) (h : ∀ k x, proj (step k x) = proj k)
     (xs : List β) (k : Kernel) : proj (xs.foldl step k) = proj k := by
   induction xs generalizing k with
@@ -19,105 +19,272 @@ theorem foldl_frame {α β} (proj : Kernel → α) (step : Kernel → β → Ker
 section stages
 variable (k : Kernel) (h : Nat)
 
+@[simp] theorem unlinkCell_nV : (k.unlinkCell h).nV = k.nV := by unfold unlinkCell; frame_tac
+@[simp] theorem unlinkCell_edges : (k.unlinkCell h).edges = k.edges := by unfold unlinkCell; frame_tac
+@[simp] theorem unlinkCell_faces : (k.unlinkCell h).faces = k.faces := by unfold unlinkCell; frame_tac
+@[simp] theorem unlinkCell_cells : (k.unlinkCell h).cells = k.cells := by unfold unlinkCell; frame_tac
+@[simp] theorem unlinkCell_vDel : (k.unlinkCell h).vDel = k.vDel := by unfold unlinkCell; frame_tac
+@[simp] theorem unlinkCell_eDel : (k.unlinkCell h).eDel = k.eDel := by unfold unlinkCell; frame_tac
+@[simp] theorem unlinkCell_fDel : (k.unlinkCell h).fDel = k.fDel := by unfold unlinkCell; frame_tac
+@[simp] theorem unlinkCell_cDel : (k.unlinkCell h).cDel = k.cDel := by unfold unlinkCell; frame_tac
+@[simp] theorem unlinkCell_nDelV : (k.unlinkCell h).nDelV = k.nDelV := by unfold unlinkCell; frame_tac
+@[simp] theorem unlinkCell_nDelE : (k.unlinkCell h).nDelE = k.nDelE := by unfold unlinkCell; frame_tac
+@[simp] theorem unlinkCell_nDelF : (k.unlinkCell h).nDelF = k.nDelF := by unfold unlinkCell; frame_tac
+@[simp] theorem unlinkCell_nDelC : (k.unlinkCell h).nDelC = k.nDelC := by unfold unlinkCell; frame_tac
 @[simp] theorem unlinkCell_deferred : (k.unlinkCell h).deferred = k.deferred := by unfold unlinkCell; frame_tac
 @[simp] theorem unlinkCell_fast : (k.unlinkCell h).fast = k.fast := by unfold unlinkCell; frame_tac
 @[simp] theorem unlinkCell_vBU : (k.unlinkCell h).vBU = k.vBU := by unfold unlinkCell; frame_tac
 @[simp] theorem unlinkCell_eBU : (k.unlinkCell h).eBU = k.eBU := by unfold unlinkCell; frame_tac
 @[simp] theorem unlinkCell_fBU : (k.unlinkCell h).fBU = k.fBU := by unfold unlinkCell; frame_tac
-@[simp] theorem unlinkCell_nDelV : (k.unlinkCell h).nDelV = k.nDelV := by unfold unlinkCell; frame_tac
-@[simp] theorem unlinkCell_nDelE : (k.unlinkCell h).nDelE = k.nDelE := by unfold unlinkCell; frame_tac
-@[simp] theorem unlinkCell_nDelF : (k.unlinkCell h).nDelF = k.nDelF := by unfold unlinkCell; frame_tac
-@[simp] theorem unlinkCell_nDelC : (k.unlinkCell h).nDelC = k.nDelC := by unfold unlinkCell; frame_tac
+@[simp] theorem unlinkCell_outHes : (k.unlinkCell h).outHes = k.outHes := by unfold unlinkCell; frame_tac
+@[simp] theorem unlinkCell_props : (k.unlinkCell h).props = k.props := by unfold unlinkCell; frame_tac
+@[simp] theorem flagCell_nV : (k.flagCell h).nV = k.nV := by unfold flagCell; frame_tac
+@[simp] theorem flagCell_edges : (k.flagCell h).edges = k.edges := by unfold flagCell; frame_tac
+@[simp] theorem flagCell_faces : (k.flagCell h).faces = k.faces := by unfold flagCell; frame_tac
+@[simp] theorem flagCell_cells : (k.flagCell h).cells = k.cells := by unfold flagCell; frame_tac
+@[simp] theorem flagCell_vDel : (k.flagCell h).vDel = k.vDel := by unfold flagCell; frame_tac
+@[simp] theorem flagCell_eDel : (k.flagCell h).eDel = k.eDel := by unfold flagCell; frame_tac
+@[simp] theorem flagCell_fDel : (k.flagCell h).fDel = k.fDel := by unfold flagCell; frame_tac
+@[simp] theorem flagCell_cDel : (k.flagCell h).cDel = k.cDel.set h true := by unfold flagCell; frame_tac
+@[simp] theorem flagCell_nDelV : (k.flagCell h).nDelV = k.nDelV := by unfold flagCell; frame_tac
+@[simp] theorem flagCell_nDelE : (k.flagCell h).nDelE = k.nDelE := by unfold flagCell; frame_tac
+@[simp] theorem flagCell_nDelF : (k.flagCell h).nDelF = k.nDelF := by unfold flagCell; frame_tac
+@[simp] theorem flagCell_nDelC : (k.flagCell h).nDelC = k.nDelC + 1 := by unfold flagCell; frame_tac
 @[simp] theorem flagCell_deferred : (k.flagCell h).deferred = k.deferred := by unfold flagCell; frame_tac
 @[simp] theorem flagCell_fast : (k.flagCell h).fast = k.fast := by unfold flagCell; frame_tac
 @[simp] theorem flagCell_vBU : (k.flagCell h).vBU = k.vBU := by unfold flagCell; frame_tac
 @[simp] theorem flagCell_eBU : (k.flagCell h).eBU = k.eBU := by unfold flagCell; frame_tac
 @[simp] theorem flagCell_fBU : (k.flagCell h).fBU = k.fBU := by unfold flagCell; frame_tac
-@[simp] theorem flagCell_nDelV : (k.flagCell h).nDelV = k.nDelV := by unfold flagCell; frame_tac
-@[simp] theorem flagCell_nDelE : (k.flagCell h).nDelE = k.nDelE := by unfold flagCell; frame_tac
-@[simp] theorem flagCell_nDelF : (k.flagCell h).nDelF = k.nDelF := by unfold flagCell; frame_tac
-@[simp] theorem flagCell_nDelC : (k.flagCell h).nDelC = k.nDelC + 1 := by unfold flagCell; frame_tac
+@[simp] theorem flagCell_outHes : (k.flagCell h).outHes = k.outHes := by unfold flagCell; frame_tac
+@[simp] theorem flagCell_incHfs : (k.flagCell h).incHfs = k.incHfs := by unfold flagCell; frame_tac
+@[simp] theorem flagCell_incCell : (k.flagCell h).incCell = k.incCell := by unfold flagCell; frame_tac
+@[simp] theorem flagCell_props : (k.flagCell h).props = k.props := by unfold flagCell; frame_tac
+@[simp] theorem eraseCell_nV : (k.eraseCell h).nV = k.nV := by unfold eraseCell; frame_tac
+@[simp] theorem eraseCell_edges : (k.eraseCell h).edges = k.edges := by unfold eraseCell; frame_tac
+@[simp] theorem eraseCell_faces : (k.eraseCell h).faces = k.faces := by unfold eraseCell; frame_tac
+@[simp] theorem eraseCell_cells : (k.eraseCell h).cells = k.cells.eraseIdx h := by unfold eraseCell; frame_tac
+@[simp] theorem eraseCell_vDel : (k.eraseCell h).vDel = k.vDel := by unfold eraseCell; frame_tac
+@[simp] theorem eraseCell_eDel : (k.eraseCell h).eDel = k.eDel := by unfold eraseCell; frame_tac
+@[simp] theorem eraseCell_fDel : (k.eraseCell h).fDel = k.fDel := by unfold eraseCell; frame_tac
+@[simp] theorem eraseCell_cDel : (k.eraseCell h).cDel = k.cDel.eraseIdx h := by unfold eraseCell; frame_tac
+@[simp] theorem eraseCell_nDelV : (k.eraseCell h).nDelV = k.nDelV := by unfold eraseCell; frame_tac
+@[simp] theorem eraseCell_nDelE : (k.eraseCell h).nDelE = k.nDelE := by unfold eraseCell; frame_tac
+@[simp] theorem eraseCell_nDelF : (k.eraseCell h).nDelF = k.nDelF := by unfold eraseCell; frame_tac
+@[simp] theorem eraseCell_nDelC : (k.eraseCell h).nDelC = k.nDelC := by unfold eraseCell; frame_tac
 @[simp] theorem eraseCell_deferred : (k.eraseCell h).deferred = k.deferred := by unfold eraseCell; frame_tac
 @[simp] theorem eraseCell_fast : (k.eraseCell h).fast = k.fast := by unfold eraseCell; frame_tac
 @[simp] theorem eraseCell_vBU : (k.eraseCell h).vBU = k.vBU := by unfold eraseCell; frame_tac
 @[simp] theorem eraseCell_eBU : (k.eraseCell h).eBU = k.eBU := by unfold eraseCell; frame_tac
 @[simp] theorem eraseCell_fBU : (k.eraseCell h).fBU = k.fBU := by unfold eraseCell; frame_tac
-@[simp] theorem eraseCell_nDelV : (k.eraseCell h).nDelV = k.nDelV := by unfold eraseCell; frame_tac
-@[simp] theorem eraseCell_nDelE : (k.eraseCell h).nDelE = k.nDelE := by unfold eraseCell; frame_tac
-@[simp] theorem eraseCell_nDelF : (k.eraseCell h).nDelF = k.nDelF := by unfold eraseCell; frame_tac
-@[simp] theorem eraseCell_nDelC : (k.eraseCell h).nDelC = k.nDelC := by unfold eraseCell; frame_tac
+@[simp] theorem eraseCell_outHes : (k.eraseCell h).outHes = k.outHes := by unfold eraseCell; frame_tac
+@[simp] theorem eraseCell_incHfs : (k.eraseCell h).incHfs = k.incHfs := by unfold eraseCell; frame_tac
+@[simp] theorem eraseCell_props : (k.eraseCell h).props = cellDeleted k.props h := by unfold eraseCell; frame_tac
+@[simp] theorem flagFace_nV : (k.flagFace h).nV = k.nV := by unfold flagFace; frame_tac
+@[simp] theorem flagFace_edges : (k.flagFace h).edges = k.edges := by unfold flagFace; frame_tac
+@[simp] theorem flagFace_faces : (k.flagFace h).faces = k.faces := by unfold flagFace; frame_tac
+@[simp] theorem flagFace_cells : (k.flagFace h).cells = k.cells := by unfold flagFace; frame_tac
+@[simp] theorem flagFace_vDel : (k.flagFace h).vDel = k.vDel := by unfold flagFace; frame_tac
+@[simp] theorem flagFace_eDel : (k.flagFace h).eDel = k.eDel := by unfold flagFace; frame_tac
+@[simp] theorem flagFace_fDel : (k.flagFace h).fDel = k.fDel.set h true := by unfold flagFace; frame_tac
+@[simp] theorem flagFace_cDel : (k.flagFace h).cDel = k.cDel := by unfold flagFace; frame_tac
+@[simp] theorem flagFace_nDelV : (k.flagFace h).nDelV = k.nDelV := by unfold flagFace; frame_tac
+@[simp] theorem flagFace_nDelE : (k.flagFace h).nDelE = k.nDelE := by unfold flagFace; frame_tac
+@[simp] theorem flagFace_nDelF : (k.flagFace h).nDelF = k.nDelF + 1 := by unfold flagFace; frame_tac
+@[simp] theorem flagFace_nDelC : (k.flagFace h).nDelC = k.nDelC := by unfold flagFace; frame_tac
 @[simp] theorem flagFace_deferred : (k.flagFace h).deferred = k.deferred := by unfold flagFace; frame_tac
 @[simp] theorem flagFace_fast : (k.flagFace h).fast = k.fast := by unfold flagFace; frame_tac
 @[simp] theorem flagFace_vBU : (k.flagFace h).vBU = k.vBU := by unfold flagFace; frame_tac
 @[simp] theorem flagFace_eBU : (k.flagFace h).eBU = k.eBU := by unfold flagFace; frame_tac
 @[simp] theorem flagFace_fBU : (k.flagFace h).fBU = k.fBU := by unfold flagFace; frame_tac
-@[simp] theorem flagFace_nDelV : (k.flagFace h).nDelV = k.nDelV := by unfold flagFace; frame_tac
-@[simp] theorem flagFace_nDelE : (k.flagFace h).nDelE = k.nDelE := by unfold flagFace; frame_tac
-@[simp] theorem flagFace_nDelF : (k.flagFace h).nDelF = k.nDelF + 1 := by unfold flagFace; frame_tac
-@[simp] theorem flagFace_nDelC : (k.flagFace h).nDelC = k.nDelC := by unfold flagFace; frame_tac
+@[simp] theorem flagFace_outHes : (k.flagFace h).outHes = k.outHes := by unfold flagFace; frame_tac
+@[simp] theorem flagFace_incHfs : (k.flagFace h).incHfs = k.incHfs := by unfold flagFace; frame_tac
+@[simp] theorem flagFace_incCell : (k.flagFace h).incCell = k.incCell := by unfold flagFace; frame_tac
+@[simp] theorem flagFace_props : (k.flagFace h).props = k.props := by unfold flagFace; frame_tac
+@[simp] theorem eraseFace_nV : (k.eraseFace h).nV = k.nV := by unfold eraseFace; frame_tac
+@[simp] theorem eraseFace_edges : (k.eraseFace h).edges = k.edges := by unfold eraseFace; frame_tac
+@[simp] theorem eraseFace_faces : (k.eraseFace h).faces = k.faces.eraseIdx h := by unfold eraseFace; frame_tac
+@[simp] theorem eraseFace_vDel : (k.eraseFace h).vDel = k.vDel := by unfold eraseFace; frame_tac
+@[simp] theorem eraseFace_eDel : (k.eraseFace h).eDel = k.eDel := by unfold eraseFace; frame_tac
+@[simp] theorem eraseFace_fDel : (k.eraseFace h).fDel = k.fDel.eraseIdx h := by unfold eraseFace; frame_tac
+@[simp] theorem eraseFace_cDel : (k.eraseFace h).cDel = k.cDel := by unfold eraseFace; frame_tac
+@[simp] theorem eraseFace_nDelV : (k.eraseFace h).nDelV = k.nDelV := by unfold eraseFace; frame_tac
+@[simp] theorem eraseFace_nDelE : (k.eraseFace h).nDelE = k.nDelE := by unfold eraseFace; frame_tac
+@[simp] theorem eraseFace_nDelF : (k.eraseFace h).nDelF = k.nDelF := by unfold eraseFace; frame_tac
+@[simp] theorem eraseFace_nDelC : (k.eraseFace h).nDelC = k.nDelC := by unfold eraseFace; frame_tac
 @[simp] theorem eraseFace_deferred : (k.eraseFace h).deferred = k.deferred := by unfold eraseFace; frame_tac
 @[simp] theorem eraseFace_fast : (k.eraseFace h).fast = k.fast := by unfold eraseFace; frame_tac
 @[simp] theorem eraseFace_vBU : (k.eraseFace h).vBU = k.vBU := by unfold eraseFace; frame_tac
 @[simp] theorem eraseFace_eBU : (k.eraseFace h).eBU = k.eBU := by unfold eraseFace; frame_tac
 @[simp] theorem eraseFace_fBU : (k.eraseFace h).fBU = k.fBU := by unfold eraseFace; frame_tac
-@[simp] theorem eraseFace_nDelV : (k.eraseFace h).nDelV = k.nDelV := by unfold eraseFace; frame_tac
-@[simp] theorem eraseFace_nDelE : (k.eraseFace h).nDelE = k.nDelE := by unfold eraseFace; frame_tac
-@[simp] theorem eraseFace_nDelF : (k.eraseFace h).nDelF = k.nDelF := by unfold eraseFace; frame_tac
-@[simp] theorem eraseFace_nDelC : (k.eraseFace h).nDelC = k.nDelC := by unfold eraseFace; frame_tac
+@[simp] theorem eraseFace_outHes : (k.eraseFace h).outHes = k.outHes := by unfold eraseFace; frame_tac
+@[simp] theorem eraseFace_props : (k.eraseFace h).props = faceDeleted k.props h := by unfold eraseFace; frame_tac
+@[simp] theorem unlinkEdge_nV : (k.unlinkEdge h).nV = k.nV := by unfold unlinkEdge; frame_tac
+@[simp] theorem unlinkEdge_edges : (k.unlinkEdge h).edges = k.edges := by unfold unlinkEdge; frame_tac
+@[simp] theorem unlinkEdge_faces : (k.unlinkEdge h).faces = k.faces := by unfold unlinkEdge; frame_tac
+@[simp] theorem unlinkEdge_cells : (k.unlinkEdge h).cells = k.cells := by unfold unlinkEdge; frame_tac
+@[simp] theorem unlinkEdge_vDel : (k.unlinkEdge h).vDel = k.vDel := by unfold unlinkEdge; frame_tac
+@[simp] theorem unlinkEdge_eDel : (k.unlinkEdge h).eDel = k.eDel := by unfold unlinkEdge; frame_tac
+@[simp] theorem unlinkEdge_fDel : (k.unlinkEdge h).fDel = k.fDel := by unfold unlinkEdge; frame_tac
+@[simp] theorem unlinkEdge_cDel : (k.unlinkEdge h).cDel = k.cDel := by unfold unlinkEdge; frame_tac
+@[simp] theorem unlinkEdge_nDelV : (k.unlinkEdge h).nDelV = k.nDelV := by unfold unlinkEdge; frame_tac
+@[simp] theorem unlinkEdge_nDelE : (k.unlinkEdge h).nDelE = k.nDelE := by unfold unlinkEdge; frame_tac
+@[simp] theorem unlinkEdge_nDelF : (k.unlinkEdge h).nDelF = k.nDelF := by unfold unlinkEdge; frame_tac
+@[simp] theorem unlinkEdge_nDelC : (k.unlinkEdge h).nDelC = k.nDelC := by unfold unlinkEdge; frame_tac
 @[simp] theorem unlinkEdge_deferred : (k.unlinkEdge h).deferred = k.deferred := by unfold unlinkEdge; frame_tac
 @[simp] theorem unlinkEdge_fast : (k.unlinkEdge h).fast = k.fast := by unfold unlinkEdge; frame_tac
 @[simp] theorem unlinkEdge_vBU : (k.unlinkEdge h).vBU = k.vBU := by unfold unlinkEdge; frame_tac
 @[simp] theorem unlinkEdge_eBU : (k.unlinkEdge h).eBU = k.eBU := by unfold unlinkEdge; frame_tac
 @[simp] theorem unlinkEdge_fBU : (k.unlinkEdge h).fBU = k.fBU := by unfold unlinkEdge; frame_tac
-@[simp] theorem unlinkEdge_nDelV : (k.unlinkEdge h).nDelV = k.nDelV := by unfold unlinkEdge; frame_tac
-@[simp] theorem unlinkEdge_nDelE : (k.unlinkEdge h).nDelE = k.nDelE := by unfold unlinkEdge; frame_tac
-@[simp] theorem unlinkEdge_nDelF : (k.unlinkEdge h).nDelF = k.nDelF := by unfold unlinkEdge; frame_tac
-@[simp] theorem unlinkEdge_nDelC : (k.unlinkEdge h).nDelC = k.nDelC := by unfold unlinkEdge; frame_tac
+@[simp] theorem unlinkEdge_incHfs : (k.unlinkEdge h).incHfs = k.incHfs := by unfold unlinkEdge; frame_tac
+@[simp] theorem unlinkEdge_incCell : (k.unlinkEdge h).incCell = k.incCell := by unfold unlinkEdge; frame_tac
+@[simp] theorem unlinkEdge_props : (k.unlinkEdge h).props = k.props := by unfold unlinkEdge; frame_tac
+@[simp] theorem flagEdge_nV : (k.flagEdge h).nV = k.nV := by unfold flagEdge; frame_tac
+@[simp] theorem flagEdge_edges : (k.flagEdge h).edges = k.edges := by unfold flagEdge; frame_tac
+@[simp] theorem flagEdge_faces : (k.flagEdge h).faces = k.faces := by unfold flagEdge; frame_tac
+@[simp] theorem flagEdge_cells : (k.flagEdge h).cells = k.cells := by unfold flagEdge; frame_tac
+@[simp] theorem flagEdge_vDel : (k.flagEdge h).vDel = k.vDel := by unfold flagEdge; frame_tac
+@[simp] theorem flagEdge_eDel : (k.flagEdge h).eDel = k.eDel.set h true := by unfold flagEdge; frame_tac
+@[simp] theorem flagEdge_fDel : (k.flagEdge h).fDel = k.fDel := by unfold flagEdge; frame_tac
+@[simp] theorem flagEdge_cDel : (k.flagEdge h).cDel = k.cDel := by unfold flagEdge; frame_tac
+@[simp] theorem flagEdge_nDelV : (k.flagEdge h).nDelV = k.nDelV := by unfold flagEdge; frame_tac
+@[simp] theorem flagEdge_nDelE : (k.flagEdge h).nDelE = k.nDelE + 1 := by unfold flagEdge; frame_tac
+@[simp] theorem flagEdge_nDelF : (k.flagEdge h).nDelF = k.nDelF := by unfold flagEdge; frame_tac
+@[simp] theorem flagEdge_nDelC : (k.flagEdge h).nDelC = k.nDelC := by unfold flagEdge; frame_tac
 @[simp] theorem flagEdge_deferred : (k.flagEdge h).deferred = k.deferred := by unfold flagEdge; frame_tac
 @[simp] theorem flagEdge_fast : (k.flagEdge h).fast = k.fast := by unfold flagEdge; frame_tac
 @[simp] theorem flagEdge_vBU : (k.flagEdge h).vBU = k.vBU := by unfold flagEdge; frame_tac
 @[simp] theorem flagEdge_eBU : (k.flagEdge h).eBU = k.eBU := by unfold flagEdge; frame_tac
 @[simp] theorem flagEdge_fBU : (k.flagEdge h).fBU = k.fBU := by unfold flagEdge; frame_tac
-@[simp] theorem flagEdge_nDelV : (k.flagEdge h).nDelV = k.nDelV := by unfold flagEdge; frame_tac
-@[simp] theorem flagEdge_nDelE : (k.flagEdge h).nDelE = k.nDelE + 1 := by unfold flagEdge; frame_tac
-@[simp] theorem flagEdge_nDelF : (k.flagEdge h).nDelF = k.nDelF := by unfold flagEdge; frame_tac
-@[simp] theorem flagEdge_nDelC : (k.flagEdge h).nDelC = k.nDelC := by unfold flagEdge; frame_tac
+@[simp] theorem flagEdge_outHes : (k.flagEdge h).outHes = k.outHes := by unfold flagEdge; frame_tac
+@[simp] theorem flagEdge_incHfs : (k.flagEdge h).incHfs = k.incHfs := by unfold flagEdge; frame_tac
+@[simp] theorem flagEdge_incCell : (k.flagEdge h).incCell = k.incCell := by unfold flagEdge; frame_tac
+@[simp] theorem flagEdge_props : (k.flagEdge h).props = k.props := by unfold flagEdge; frame_tac
+@[simp] theorem eraseEdge_nV : (k.eraseEdge h).nV = k.nV := by unfold eraseEdge; frame_tac
+@[simp] theorem eraseEdge_edges : (k.eraseEdge h).edges = k.edges.eraseIdx h := by unfold eraseEdge; frame_tac
+@[simp] theorem eraseEdge_cells : (k.eraseEdge h).cells = k.cells := by unfold eraseEdge; frame_tac
+@[simp] theorem eraseEdge_vDel : (k.eraseEdge h).vDel = k.vDel := by unfold eraseEdge; frame_tac
+@[simp] theorem eraseEdge_eDel : (k.eraseEdge h).eDel = k.eDel.eraseIdx h := by unfold eraseEdge; frame_tac
+@[simp] theorem eraseEdge_fDel : (k.eraseEdge h).fDel = k.fDel := by unfold eraseEdge; frame_tac
+@[simp] theorem eraseEdge_cDel : (k.eraseEdge h).cDel = k.cDel := by unfold eraseEdge; frame_tac
+@[simp] theorem eraseEdge_nDelV : (k.eraseEdge h).nDelV = k.nDelV := by unfold eraseEdge; frame_tac
+@[simp] theorem eraseEdge_nDelE : (k.eraseEdge h).nDelE = k.nDelE := by unfold eraseEdge; frame_tac
+@[simp] theorem eraseEdge_nDelF : (k.eraseEdge h).nDelF = k.nDelF := by unfold eraseEdge; frame_tac
+@[simp] theorem eraseEdge_nDelC : (k.eraseEdge h).nDelC = k.nDelC := by unfold eraseEdge; frame_tac
 @[simp] theorem eraseEdge_deferred : (k.eraseEdge h).deferred = k.deferred := by unfold eraseEdge; frame_tac
 @[simp] theorem eraseEdge_fast : (k.eraseEdge h).fast = k.fast := by unfold eraseEdge; frame_tac
 @[simp] theorem eraseEdge_vBU : (k.eraseEdge h).vBU = k.vBU := by unfold eraseEdge; frame_tac
 @[simp] theorem eraseEdge_eBU : (k.eraseEdge h).eBU = k.eBU := by unfold eraseEdge; frame_tac
 @[simp] theorem eraseEdge_fBU : (k.eraseEdge h).fBU = k.fBU := by unfold eraseEdge; frame_tac
-@[simp] theorem eraseEdge_nDelV : (k.eraseEdge h).nDelV = k.nDelV := by unfold eraseEdge; frame_tac
-@[simp] theorem eraseEdge_nDelE : (k.eraseEdge h).nDelE = k.nDelE := by unfold eraseEdge; frame_tac
-@[simp] theorem eraseEdge_nDelF : (k.eraseEdge h).nDelF = k.nDelF := by unfold eraseEdge; frame_tac
-@[simp] theorem eraseEdge_nDelC : (k.eraseEdge h).nDelC = k.nDelC := by unfold eraseEdge; frame_tac
+@[simp] theorem eraseEdge_incCell : (k.eraseEdge h).incCell = k.incCell := by unfold eraseEdge; frame_tac
+@[simp] theorem eraseEdge_props : (k.eraseEdge h).props = edgeDeleted k.props h := by unfold eraseEdge; frame_tac
+@[simp] theorem flagVertex_nV : (k.flagVertex h).nV = k.nV := by unfold flagVertex; frame_tac
+@[simp] theorem flagVertex_edges : (k.flagVertex h).edges = k.edges := by unfold flagVertex; frame_tac
+@[simp] theorem flagVertex_faces : (k.flagVertex h).faces = k.faces := by unfold flagVertex; frame_tac
+@[simp] theorem flagVertex_cells : (k.flagVertex h).cells = k.cells := by unfold flagVertex; frame_tac
+@[simp] theorem flagVertex_vDel : (k.flagVertex h).vDel = k.vDel.set h true := by unfold flagVertex; frame_tac
+@[simp] theorem flagVertex_eDel : (k.flagVertex h).eDel = k.eDel := by unfold flagVertex; frame_tac
+@[simp] theorem flagVertex_fDel : (k.flagVertex h).fDel = k.fDel := by unfold flagVertex; frame_tac
+@[simp] theorem flagVertex_cDel : (k.flagVertex h).cDel = k.cDel := by unfold flagVertex; frame_tac
+@[simp] theorem flagVertex_nDelV : (k.flagVertex h).nDelV = k.nDelV + 1 := by unfold flagVertex; frame_tac
+@[simp] theorem flagVertex_nDelE : (k.flagVertex h).nDelE = k.nDelE := by unfold flagVertex; frame_tac
+@[simp] theorem flagVertex_nDelF : (k.flagVertex h).nDelF = k.nDelF := by unfold flagVertex; frame_tac
+@[simp] theorem flagVertex_nDelC : (k.flagVertex h).nDelC = k.nDelC := by unfold flagVertex; frame_tac
 @[simp] theorem flagVertex_deferred : (k.flagVertex h).deferred = k.deferred := by unfold flagVertex; frame_tac
 @[simp] theorem flagVertex_fast : (k.flagVertex h).fast = k.fast := by unfold flagVertex; frame_tac
 @[simp] theorem flagVertex_vBU : (k.flagVertex h).vBU = k.vBU := by unfold flagVertex; frame_tac
 @[simp] theorem flagVertex_eBU : (k.flagVertex h).eBU = k.eBU := by unfold flagVertex; frame_tac
 @[simp] theorem flagVertex_fBU : (k.flagVertex h).fBU = k.fBU := by unfold flagVertex; frame_tac
-@[simp] theorem flagVertex_nDelV : (k.flagVertex h).nDelV = k.nDelV + 1 := by unfold flagVertex; frame_tac
-@[simp] theorem flagVertex_nDelE : (k.flagVertex h).nDelE = k.nDelE := by unfold flagVertex; frame_tac
-@[simp] theorem flagVertex_nDelF : (k.flagVertex h).nDelF = k.nDelF := by unfold flagVertex; frame_tac
-@[simp] theorem flagVertex_nDelC : (k.flagVertex h).nDelC = k.nDelC := by unfold flagVertex; frame_tac
+@[simp] theorem flagVertex_outHes : (k.flagVertex h).outHes = k.outHes := by unfold flagVertex; frame_tac
+@[simp] theorem flagVertex_incHfs : (k.flagVertex h).incHfs = k.incHfs := by unfold flagVertex; frame_tac
+@[simp] theorem flagVertex_incCell : (k.flagVertex h).incCell = k.incCell := by unfold flagVertex; frame_tac
+@[simp] theorem flagVertex_props : (k.flagVertex h).props = k.props := by unfold flagVertex; frame_tac
+@[simp] theorem eraseVertex_nV : (k.eraseVertex h).nV = k.nV - 1 := by unfold eraseVertex; frame_tac
+@[simp] theorem eraseVertex_faces : (k.eraseVertex h).faces = k.faces := by unfold eraseVertex; frame_tac
+@[simp] theorem eraseVertex_cells : (k.eraseVertex h).cells = k.cells := by unfold eraseVertex; frame_tac
+@[simp] theorem eraseVertex_vDel : (k.eraseVertex h).vDel = k.vDel.eraseIdx h := by unfold eraseVertex; frame_tac
+@[simp] theorem eraseVertex_eDel : (k.eraseVertex h).eDel = k.eDel := by unfold eraseVertex; frame_tac
+@[simp] theorem eraseVertex_fDel : (k.eraseVertex h).fDel = k.fDel := by unfold eraseVertex; frame_tac
+@[simp] theorem eraseVertex_cDel : (k.eraseVertex h).cDel = k.cDel := by unfold eraseVertex; frame_tac
+@[simp] theorem eraseVertex_nDelV : (k.eraseVertex h).nDelV = k.nDelV := by unfold eraseVertex; frame_tac
+@[simp] theorem eraseVertex_nDelE : (k.eraseVertex h).nDelE = k.nDelE := by unfold eraseVertex; frame_tac
+@[simp] theorem eraseVertex_nDelF : (k.eraseVertex h).nDelF = k.nDelF := by unfold eraseVertex; frame_tac
+@[simp] theorem eraseVertex_nDelC : (k.eraseVertex h).nDelC = k.nDelC := by unfold eraseVertex; frame_tac
 @[simp] theorem eraseVertex_deferred : (k.eraseVertex h).deferred = k.deferred := by unfold eraseVertex; frame_tac
 @[simp] theorem eraseVertex_fast : (k.eraseVertex h).fast = k.fast := by unfold eraseVertex; frame_tac
 @[simp] theorem eraseVertex_vBU : (k.eraseVertex h).vBU = k.vBU := by unfold eraseVertex; frame_tac
 @[simp] theorem eraseVertex_eBU : (k.eraseVertex h).eBU = k.eBU := by unfold eraseVertex; frame_tac
 @[simp] theorem eraseVertex_fBU : (k.eraseVertex h).fBU = k.fBU := by unfold eraseVertex; frame_tac
-@[simp] theorem eraseVertex_nDelV : (k.eraseVertex h).nDelV = k.nDelV := by unfold eraseVertex; frame_tac
-@[simp] theorem eraseVertex_nDelE : (k.eraseVertex h).nDelE = k.nDelE := by unfold eraseVertex; frame_tac
-@[simp] theorem eraseVertex_nDelF : (k.eraseVertex h).nDelF = k.nDelF := by unfold eraseVertex; frame_tac
-@[simp] theorem eraseVertex_nDelC : (k.eraseVertex h).nDelC = k.nDelC := by unfold eraseVertex; frame_tac
+@[simp] theorem eraseVertex_incHfs : (k.eraseVertex h).incHfs = k.incHfs := by unfold eraseVertex; frame_tac
+@[simp] theorem eraseVertex_incCell : (k.eraseVertex h).incCell = k.incCell := by unfold eraseVertex; frame_tac
+@[simp] theorem eraseVertex_props : (k.eraseVertex h).props = vertexDeleted k.props h := by unfold eraseVertex; frame_tac
+@[simp] theorem unlinkFaceStep_nV (he : Nat) : (unlinkFaceStep h k he).nV = k.nV := by unfold unlinkFaceStep; frame_tac
+@[simp] theorem unlinkFaceStep_edges (he : Nat) : (unlinkFaceStep h k he).edges = k.edges := by unfold unlinkFaceStep; frame_tac
+@[simp] theorem unlinkFaceStep_faces (he : Nat) : (unlinkFaceStep h k he).faces = k.faces := by unfold unlinkFaceStep; frame_tac
+@[simp] theorem unlinkFaceStep_cells (he : Nat) : (unlinkFaceStep h k he).cells = k.cells := by unfold unlinkFaceStep; frame_tac
+@[simp] theorem unlinkFaceStep_vDel (he : Nat) : (unlinkFaceStep h k he).vDel = k.vDel := by unfold unlinkFaceStep; frame_tac
+@[simp] theorem unlinkFaceStep_eDel (he : Nat) : (unlinkFaceStep h k he).eDel = k.eDel := by unfold unlinkFaceStep; frame_tac
+@[simp] theorem unlinkFaceStep_fDel (he : Nat) : (unlinkFaceStep h k he).fDel = k.fDel := by unfold unlinkFaceStep; frame_tac
+@[simp] theorem unlinkFaceStep_cDel (he : Nat) : (unlinkFaceStep h k he).cDel = k.cDel := by unfold unlinkFaceStep; frame_tac
+@[simp] theorem unlinkFaceStep_nDelV (he : Nat) : (unlinkFaceStep h k he).nDelV = k.nDelV := by unfold unlinkFaceStep; frame_tac
+@[simp] theorem unlinkFaceStep_nDelE (he : Nat) : (unlinkFaceStep h k he).nDelE = k.nDelE := by unfold unlinkFaceStep; frame_tac
+@[simp] theorem unlinkFaceStep_nDelF (he : Nat) : (unlinkFaceStep h k he).nDelF = k.nDelF := by unfold unlinkFaceStep; frame_tac
+@[simp] theorem unlinkFaceStep_nDelC (he : Nat) : (unlinkFaceStep h k he).nDelC = k.nDelC := by unfold unlinkFaceStep; frame_tac
 @[simp] theorem unlinkFaceStep_deferred (he : Nat) : (unlinkFaceStep h k he).deferred = k.deferred := by unfold unlinkFaceStep; frame_tac
 @[simp] theorem unlinkFaceStep_fast (he : Nat) : (unlinkFaceStep h k he).fast = k.fast := by unfold unlinkFaceStep; frame_tac
 @[simp] theorem unlinkFaceStep_vBU (he : Nat) : (unlinkFaceStep h k he).vBU = k.vBU := by unfold unlinkFaceStep; frame_tac
 @[simp] theorem unlinkFaceStep_eBU (he : Nat) : (unlinkFaceStep h k he).eBU = k.eBU := by unfold unlinkFaceStep; frame_tac
 @[simp] theorem unlinkFaceStep_fBU (he : Nat) : (unlinkFaceStep h k he).fBU = k.fBU := by unfold unlinkFaceStep; frame_tac
-@[simp] theorem unlinkFaceStep_nDelV (he : Nat) : (unlinkFaceStep h k he).nDelV = k.nDelV := by unfold unlinkFaceStep; frame_tac
-@[simp] theorem unlinkFaceStep_nDelE (he : Nat) : (unlinkFaceStep h k he).nDelE = k.nDelE := by unfold unlinkFaceStep; frame_tac
-@[simp] theorem unlinkFaceStep_nDelF (he : Nat) : (unlinkFaceStep h k he).nDelF = k.nDelF := by unfold unlinkFaceStep; frame_tac
-@[simp] theorem unlinkFaceStep_nDelC (he : Nat) : (unlinkFaceStep h k he).nDelC = k.nDelC := by unfold unlinkFaceStep; frame_tac
+@[simp] theorem unlinkFaceStep_outHes (he : Nat) : (unlinkFaceStep h k he).outHes = k.outHes := by unfold unlinkFaceStep; frame_tac
+@[simp] theorem unlinkFaceStep_incCell (he : Nat) : (unlinkFaceStep h k he).incCell = k.incCell := by unfold unlinkFaceStep; frame_tac
+@[simp] theorem unlinkFaceStep_props (he : Nat) : (unlinkFaceStep h k he).props = k.props := by unfold unlinkFaceStep; frame_tac
+@[simp] theorem unlinkFace_nV : (k.unlinkFace h).nV = k.nV := by
+  unfold unlinkFace; split
+  · exact foldl_frame (·.nV) (unlinkFaceStep h) (fun k x => unlinkFaceStep_nV k h x) _ k
+  · rfl
+@[simp] theorem unlinkFace_edges : (k.unlinkFace h).edges = k.edges := by
+  unfold unlinkFace; split
+  · exact foldl_frame (·.edges) (unlinkFaceStep h) (fun k x => unlinkFaceStep_edges k h x) _ k
+  · rfl
+@[simp] theorem unlinkFace_faces : (k.unlinkFace h).faces = k.faces := by
+  unfold unlinkFace; split
+  · exact foldl_frame (·.faces) (unlinkFaceStep h) (fun k x => unlinkFaceStep_faces k h x) _ k
+  · rfl
+@[simp] theorem unlinkFace_cells : (k.unlinkFace h).cells = k.cells := by
+  unfold unlinkFace; split
+  · exact foldl_frame (·.cells) (unlinkFaceStep h) (fun k x => unlinkFaceStep_cells k h x) _ k
+  · rfl
+@[simp] theorem unlinkFace_vDel : (k.unlinkFace h).vDel = k.vDel := by
+  unfold unlinkFace; split
+  · exact foldl_frame (·.vDel) (unlinkFaceStep h) (fun k x => unlinkFaceStep_vDel k h x) _ k
+  · rfl
+@[simp] theorem unlinkFace_eDel : (k.unlinkFace h).eDel = k.eDel := by
+  unfold unlinkFace; split
+  · exact foldl_frame (·.eDel) (unlinkFaceStep h) (fun k x => unlinkFaceStep_eDel k h x) _ k
+  · rfl
+@[simp] theorem unlinkFace_fDel : (k.unlinkFace h).fDel = k.fDel := by
+  unfold unlinkFace; split
+  · exact foldl_frame (·.fDel) (unlinkFaceStep h) (fun k x => unlinkFaceStep_fDel k h x) _ k
+  · rfl
+@[simp] theorem unlinkFace_cDel : (k.unlinkFace h).cDel = k.cDel := by
+  unfold unlinkFace; split
+  · exact foldl_frame (·.cDel) (unlinkFaceStep h) (fun k x => unlinkFaceStep_cDel k h x) _ k
+  · rfl
+@[simp] theorem unlinkFace_nDelV : (k.unlinkFace h).nDelV = k.nDelV := by
+  unfold unlinkFace; split
+  · exact foldl_frame (·.nDelV) (unlinkFaceStep h) (fun k x => unlinkFaceStep_nDelV k h x) _ k
+  · rfl
+@[simp] theorem unlinkFace_nDelE : (k.unlinkFace h).nDelE = k.nDelE := by
+  unfold unlinkFace; split
+  · exact foldl_frame (·.nDelE) (unlinkFaceStep h) (fun k x => unlinkFaceStep_nDelE k h x) _ k
+  · rfl
+@[simp] theorem unlinkFace_nDelF : (k.unlinkFace h).nDelF = k.nDelF := by
+  unfold unlinkFace; split
+  · exact foldl_frame (·.nDelF) (unlinkFaceStep h) (fun k x => unlinkFaceStep_nDelF k h x) _ k
+  · rfl
+@[simp] theorem unlinkFace_nDelC : (k.unlinkFace h).nDelC = k.nDelC := by
+  unfold unlinkFace; split
+  · exact foldl_frame (·.nDelC) (unlinkFaceStep h) (fun k x => unlinkFaceStep_nDelC k h x) _ k
+  · rfl
 @[simp] theorem unlinkFace_deferred : (k.unlinkFace h).deferred = k.deferred := by
   unfold unlinkFace; split
   · exact foldl_frame (·.deferred) (unlinkFaceStep h) (fun k x => unlinkFaceStep_deferred k h x) _ k
@@ -138,21 +305,17 @@ variable (k : Kernel) (h : Nat)
   unfold unlinkFace; split
   · exact foldl_frame (·.fBU) (unlinkFaceStep h) (fun k x => unlinkFaceStep_fBU k h x) _ k
   · rfl
-@[simp] theorem unlinkFace_nDelV : (k.unlinkFace h).nDelV = k.nDelV := by
+@[simp] theorem unlinkFace_outHes : (k.unlinkFace h).outHes = k.outHes := by
   unfold unlinkFace; split
-  · exact foldl_frame (·.nDelV) (unlinkFaceStep h) (fun k x => unlinkFaceStep_nDelV k h x) _ k
+  · exact foldl_frame (·.outHes) (unlinkFaceStep h) (fun k x => unlinkFaceStep_outHes k h x) _ k
   · rfl
-@[simp] theorem unlinkFace_nDelE : (k.unlinkFace h).nDelE = k.nDelE := by
+@[simp] theorem unlinkFace_incCell : (k.unlinkFace h).incCell = k.incCell := by
   unfold unlinkFace; split
-  · exact foldl_frame (·.nDelE) (unlinkFaceStep h) (fun k x => unlinkFaceStep_nDelE k h x) _ k
+  · exact foldl_frame (·.incCell) (unlinkFaceStep h) (fun k x => unlinkFaceStep_incCell k h x) _ k
   · rfl
-@[simp] theorem unlinkFace_nDelF : (k.unlinkFace h).nDelF = k.nDelF := by
+@[simp] theorem unlinkFace_props : (k.unlinkFace h).props = k.props := by
   unfold unlinkFace; split
-  · exact foldl_frame (·.nDelF) (unlinkFaceStep h) (fun k x => unlinkFaceStep_nDelF k h x) _ k
-  · rfl
-@[simp] theorem unlinkFace_nDelC : (k.unlinkFace h).nDelC = k.nDelC := by
-  unfold unlinkFace; split
-  · exact foldl_frame (·.nDelC) (unlinkFaceStep h) (fun k x => unlinkFaceStep_nDelC k h x) _ k
+  · exact foldl_frame (·.props) (unlinkFaceStep h) (fun k x => unlinkFaceStep_props k h x) _ k
   · rfl
 end stages
 
